@@ -899,6 +899,8 @@ def pred_C14(model, params, run):
     for b, st in run["snaps"]:
         check_now = b in ("enter", "comp1", "removed", "comp2", "updated", "absence", "allocated", "comp3",
                           "costed", "performed", "recorded", "ticked")
+        if b == "enter" and params.get("initState", True) is False:
+            check_now = False   # the state a run without state initialisation starts from is the caller's business
         for c, cs in enumerate(model["comps"]):
             ts = [st["tstate"][t] for t in cs["tasks"]]
             if check_now:
@@ -919,6 +921,24 @@ def pred_C14(model, params, run):
                     out.append(viol("C14", "component %d left FINISHED" % c, boundary=b, time=st["time"]))
                     return out
         prev = st
+    # the same clauses on the LOGS (what a user reads): entry k of a component against entry k of its tasks
+    fin = run.get("final")
+    if fin is not None and not out:
+        for c, cs in enumerate(model["comps"]):
+            clog = fin["cState"][c]
+            for k in range(len(clog)):
+                ts = [fin["tState"][t][k] for t in cs["tasks"] if k < len(fin["tState"][t])]
+                if len(ts) != len(cs["tasks"]):
+                    break
+                if (clog[k] == FINISHED) != all(x == FINISHED for x in ts):
+                    out.append(viol("C14", "log: component %d FINISHED mismatch at step %d" % (c, k)))
+                    return out
+                if any(x == WORKING for x in ts) and clog[k] != WORKING:
+                    out.append(viol("C14", "log: component %d is logged %d at step %d although a task of it is logged WORKING" % (c, clog[k], k)))
+                    return out
+                if any(x in (READY, WORKING) for x in ts) and clog[k] == NONE:
+                    out.append(viol("C14", "log: component %d logged NONE at step %d although a task is READY/WORKING" % (c, k)))
+                    return out
     return out
 
 
